@@ -105,10 +105,20 @@ def run(chk):
     chk.tlc("TcpOut generate", r)
     pr = list(r.printed)
     rng.shuffle(pr)
-    for i, b in enumerate(pr[: 300 if quick else 5000]):
+    # the FIRST exported record need not be the first one captured: a record of the other direction completes inside a multi-segment record
+    # (full duplex) -- the synthetic handshake then carries the time of the record that is exported first, not the earliest carrier in the queue
+    fd = []
+    for i in range(40 if quick else 600):
+        d1 = rng.choice("cs")
+        fd.append(dict(recs=[dict(d=d1, n=rng.randint(4, 12), k=rng.randint(2, 4)), dict(d="s" if d1 == "c" else "c", n=rng.randint(1, 9), k=1)]
+                       + [dict(d=rng.choice("cs"), n=rng.randint(0, 12), k=rng.randint(1, 3)) for _ in range(rng.randint(0, 2))], fd=True))
+    pr = fd + pr
+    for i, b in enumerate(pr[: 340 if quick else 5600]):
         sc = c06.scenario(b["recs"], c06.KINDS[i % len(c06.KINDS)], rng.randrange(1 << 30), 4)     # (every second one full-duplex)
         sc["conns"][0]["flow"] = rnd_flow(rng, rng.choice([4, 6]))
         sc["ts0"], sc["step"] = rng.randrange(10 ** 15, 2 * 10 ** 15), rng.choice([1, 7, 999_983, 1_000_003, 123_457])
+        if b.get("fd"):
+            sc["duplex"], sc["duplex_p"], sc["zoo"] = sc["duplex"] or 1, 1.0, 0
         if i % 3 == 0:
             sc["container"] = dict(sub=True, tsresol=9)
             sc["step"] = max(sc["step"], 7)
